@@ -20,6 +20,7 @@ RULE = (
     "XPUB recv returns each subscriber message verbatim, in per-peer order."
     " Family takeover (states open / eof / parked): a second connection registers under an identity that is still registered, for PUB and XPUB; for XPUB `parked` the application's recv is parked on the old stream when the new one is inserted — the new connection's subscriptions must be read and honoured."
     " Family fanout-fault: six subscribers of everything; one stalls until two 70 000-byte messages are buffered for it (above the high-water mark), then its writes fail with TimedOut / ConnectionReset; three more publishes: each of the five OTHER subscribers gets all five messages exactly once — with each subscriber as the victim in turn (the table walk's order is the hash map's)."
+    ' Family binary-topics: topics and first frames that are NOT text — invalid UTF-8 (ff, fe 01, fd, 80), a lone lead byte (c3) against its character (c3 a9), NUL, the subscribe / unsubscribe marker bytes as topic, the replacement character ef bf bd, a 300-byte topic against 299- and 301-byte frames: every single subscription, sub-sub-unsub / sub-unsub pairs on two subscribers, seeded random histories; matching is on BYTES.'
 )
 ASSUMPTIONS = ["PUB subscription messages are processed by its reader tasks: observed at quiescent points (after `drain`)"]
 TRUSTED = ["tokio current-thread scheduling of the PUB reader tasks (only run inside `drain`)"]
@@ -53,7 +54,16 @@ def ref_match(c, frame):
     return any(n > 0 and frame.startswith(t) for t, n in c.items())
 
 
-def build(typ, hists, n, tag):
+# topics and first frames that are NOT text: every byte value is legal in a topic (a foreign SUB may subscribe to anything),
+# matching is on BYTES — invalid UTF-8, lone lead bytes, NUL, the subscribe/unsubscribe marker bytes themselves, the
+# replacement character, a topic longer than 255 bytes
+BTOPICS = [b"\xff", b"\xfe\x01", b"\xc3", b"\xfd", b"\xc3\xa9", b"\x00", b"\x01", b"\xef\xbf\xbd", b"\x80", b"T" * 300, b"\xfe"]
+BFRAMES = [b"\xff\x10", b"\xfe\x01z", b"\xc3\xa9x", b"\xfd", b"\xef\xbf\xbd0", b"\x00", b"\x01\x01", b"T" * 300 + b"x", b"T" * 299, b"\xc3",
+           b"\x80\x80", b"\xfe"]
+
+
+def build(typ, hists, n, tag, frames=None):
+    FRAMES = frames if frames is not None else globals()["FRAMES"]
     sc = wg.Script()
     sc.sock(1, typ)
     for p, h in enumerate(hists, start=1):
@@ -79,7 +89,7 @@ def build(typ, hists, n, tag):
         for p in range(1, len(hists) + 1):
             sc.add(f"wire {p}")
     c = sc.case(f"{tag}-{typ}#{n}", [f"{tag}-{typ}"])
-    c.expect = (typ, hists, order)
+    c.expect = (typ, hists, order) if frames is None else (typ, hists, order, frames)
     return c
 
 
@@ -215,6 +225,16 @@ def cases(tier, rng):
             hs = [[rng.choice(ALPHA) for _ in range(rng.randint(0, 5))] for _ in range(k)]
             out.append(build(typ, hs, n, "multi-subscriber"))
             n += 1
+        balpha = [("sub", t) for t in BTOPICS] + [("unsub", t) for t in BTOPICS]
+        for t in BTOPICS:
+            out.append(build(typ, [[("sub", t)]], n, "binary-topics", BFRAMES))
+            n += 1
+            out.append(build(typ, [[("sub", t), ("sub", t), ("unsub", t)], [("sub", t), ("unsub", t)]], n, "binary-topics", BFRAMES))
+            n += 1
+        for _ in range(120 if tier == "quick" else 1500):
+            hs = [[rng.choice(balpha) for _ in range(rng.randint(1, 6))] for _ in range(rng.randint(1, 2))]
+            out.append(build(typ, hs, n, "binary-topics", BFRAMES))
+            n += 1
     return out
 
 
@@ -227,7 +247,8 @@ def oracle(case, lines):
         return takeover_oracle(case, lines)
     if case.expect[0] == "fanout-fault":
         return fanout_fault_oracle(case, lines)
-    typ, hists, order = case.expect
+    typ, hists, order = case.expect[:3]
+    FRAMES = case.expect[3] if len(case.expect) > 3 else globals()["FRAMES"]
     res = list(zip(case.ops, lines[1:]))
     # XPUB: subscription messages verbatim and in per-peer order
     if typ == "XPUB":
